@@ -308,9 +308,37 @@ func (r *runner) clauseNames(ids []int64) []string {
 }
 
 // runOne executes one history on both sides and classifies it.
+// opPatience is how long one operation (or Close) of the implementation may take before it is
+// considered wedged; after the first wedge of a run later waits are kept short (global state of the
+// implementation - the event bus, package-level mutexes - may stay blocked for the following histories).
+var opPatience = 60 * time.Second
+
+// guarded runs f on a goroutine of its own and reports whether it returned in time.  The waiting
+// goroutine sleeps on a timer, so a deadlock of the implementation never makes the Go runtime abort the
+// process ("all goroutines are asleep"); a wedged goroutine is abandoned.
+func guarded(f func()) bool {
+	done := make(chan struct{})
+	go func() {
+		defer close(done)
+		f()
+	}()
+	t := time.NewTimer(opPatience)
+	defer t.Stop()
+	select {
+	case <-done:
+		return true
+	case <-t.C:
+		opPatience = 3 * time.Second
+		return false
+	}
+}
+
 func (r *runner) runOne(h []Zs, keepTrace bool) (Outcome, []StepRec, error) {
-	impl := r.cfg.NewImpl()
-	defer impl.Close()
+	var impl Impl
+	if !guarded(func() { impl = r.cfg.NewImpl() }) {
+		return Outcome{Kind: "violation", Clauses: []string{"implementation-never-returned (set-up of a fresh instance)"}, At: 0, History: h}, nil, nil
+	}
+	defer guarded(func() { impl.Close() })
 	if err := r.drv.Reset(); err != nil {
 		return Outcome{}, nil, err
 	}
@@ -319,7 +347,16 @@ func (r *runner) runOne(h []Zs, keepTrace bool) (Outcome, []StepRec, error) {
 	knownSet := map[int64]bool{}
 	disagreeAt := -1
 	for i, op := range h {
-		obs := impl.Exec(op)
+		var obs []Zs
+		if !guarded(func() { obs = impl.Exec(op) }) {
+			// the call into the implementation did not return: a wedge (deadlock, lock left held, ...)
+			trace = append(trace, StepRec{Op: op, Impl: []Zs{{-1}}})
+			out.Kind = "violation"
+			out.At = i
+			out.Clauses = []string{"implementation-never-returned"}
+			out.OracleOK = false
+			break
+		}
 		if r.cfg.Canon != nil {
 			obs = r.cfg.Canon(op, obs)
 		}
